@@ -227,20 +227,31 @@ def mac_pattern_language():
     lower-case hex digits (nothing before, nothing after)."""
     N = load(NU)
     # the pattern literal is read from the function's source each run
-    pattern = mac_pattern_from_source(N)
+    mode, pattern, flags = mac_pattern_from_source(N)
     x = fresh_str('lowered')
-    accepted = in_lang(x, re_lang(pattern, mode='match'))
+    accepted = in_lang(x, re_lang(pattern, flags, mode))
     spec = in_lang(x, re_lang('([0-9a-f]{2}:){5}[0-9a-f]{2}'))
     check('mac/accepts-only-six-hex-pairs', implies(accepted, spec))
     check('mac/accepts-every-six-hex-pairs', implies(spec, accepted))
 
 
 def mac_pattern_from_source(N):
+    """(mode, pattern): which re function is_valid_mac applies to which
+    pattern literal, observed by running the real function once against a
+    recording `re`."""
     captured = []
 
     class FakeRe:
-        def match(self, pattern, string):
-            captured.append(pattern)
+        def match(self, pattern, string, flags=0):
+            captured.append(('match', pattern, flags))
+            return None
+
+        def search(self, pattern, string, flags=0):
+            captured.append(('search', pattern, flags))
+            return None
+
+        def fullmatch(self, pattern, string, flags=0):
+            captured.append(('full', pattern, flags))
             return None
     old = N.re
     try:
